@@ -1,5 +1,6 @@
 // "writer" driver: feeds chunk sequences to the output writers (C14) and to CdnsEncoder as the plain reference.
 #include "common.h"
+#include <thread>
 
 namespace cdns_verif {
 using namespace CDNS;
@@ -9,71 +10,124 @@ using namespace CDNS;
 //   "steps":[{"n":1234}|{"rot":true}...]}     chunks are consecutive slices of the data file
 //   "via":"writer"|"encoder"                   writer: BaseCborOutputWriter::write; encoder: CdnsEncoder::write_bytestring is NOT used (raw)
 // Outputs are <out>.<k>[suffix] for k = 0.. (one per rotation); result: {"id","outs":[paths], "log":[...]}
+static json run_writer_case(const json& c) {
+    std::string w = c.at("w").get<std::string>(), kind = c.at("kind").get<std::string>();
+    std::string base = c.at("out").get<std::string>();
+    std::string data;
+    slurp(c.at("data").get<std::string>(), data);
+    std::string suffix = kind == "fd" ? "" : (w == "gzip" ? ".gz" : w == "xz" ? ".xz" : "");
+    json outs = json::array(), log = json::array();
+    int k = 0;
+    auto path_k = [&](int i) { return base + "." + std::to_string(i); };
+    std::unique_ptr<BaseCborOutputWriter> wr;
+    try {
+        auto make = [&](int i) -> std::unique_ptr<BaseCborOutputWriter> {
+            if (kind == "fd") {
+                int fd = (i == 0 && c.value("dev_full_first", false)) ? ::open("/dev/full", O_WRONLY)
+                                                                        : ::open(path_k(i).c_str(), O_CREAT | O_WRONLY | O_TRUNC, 0644);
+                if (w == "gzip") return std::unique_ptr<BaseCborOutputWriter>(new GzipCborOutputWriter(fd));
+                if (w == "xz") return std::unique_ptr<BaseCborOutputWriter>(new XzCborOutputWriter(fd));
+                return std::unique_ptr<BaseCborOutputWriter>(new CborOutputWriter(fd));
+            }
+            if (w == "gzip") return std::unique_ptr<BaseCborOutputWriter>(new GzipCborOutputWriter(path_k(i)));
+            if (w == "xz") return std::unique_ptr<BaseCborOutputWriter>(new XzCborOutputWriter(path_k(i)));
+            return std::unique_ptr<BaseCborOutputWriter>(new CborOutputWriter(path_k(i)));
+        };
+        wr = make(0);
+        outs.push_back(path_k(0) + suffix);
+        size_t pos = 0;
+        bool tolerate = c.value("continue_after_exception", false);
+        for (auto& s : c.at("steps")) {
+            if (tolerate) {
+                // fault scenarios: a failing step is logged and the sequence goes on
+                try {
+                    if (s.contains("rot")) {
+                        k++;
+                        if (kind == "fd") { int fd = ::open(path_k(k).c_str(), O_CREAT | O_WRONLY | O_TRUNC, 0644); wr->rotate_output(boost::any(fd)); }
+                        else wr->rotate_output(boost::any(path_k(k)));
+                        outs.push_back(path_k(k) + suffix);
+                        log.push_back("rot");
+                    }
+                    else {
+                        size_t len = s.at("n").get<size_t>();
+                        if (pos + len > data.size()) len = data.size() - pos;
+                        size_t at = pos;
+                        pos += len;
+                        wr->write(data.data() + at, len);
+                        log.push_back(len);
+                    }
+                }
+                catch (std::exception& x) {
+                    log.push_back({{"exc", exc_name(x)}, {"step", s}});
+                }
+                continue;
+            }
+            if (s.contains("rot")) {
+                k++;
+                if (kind == "fd") { int fd = ::open(path_k(k).c_str(), O_CREAT | O_WRONLY | O_TRUNC, 0644); wr->rotate_output(boost::any(fd)); }
+                else wr->rotate_output(boost::any(path_k(k)));
+                outs.push_back(path_k(k) + suffix);
+                log.push_back("rot");
+            }
+            else {
+                size_t len = s.at("n").get<size_t>();
+                if (pos + len > data.size()) len = data.size() - pos;
+                wr->write(data.data() + pos, len);
+                pos += len;
+                log.push_back(len);
+            }
+        }
+        wr.reset();
+        log.push_back("closed");
+    }
+    catch (std::exception& x) {
+        log.push_back({{"exc", exc_name(x)}, {"what", x.what()}});
+        try { wr.reset(); } catch (...) {}
+    }
+    json r = json::object();
+    r["id"] = c["id"];
+    r["outs"] = outs;
+    r["log"] = log;
+    return r;
+}
+
 int cmd_writer(int argc, char** argv) {
-    if (argc < 4) { fprintf(stderr, "usage: vdrv writer cases results [start]\n"); return 2; }
+    if (argc < 4) { fprintf(stderr, "usage: vdrv writer cases results [start] [threads]\n"); return 2; }
     std::ifstream in(argv[2]);
     FILE* out = fopen(argv[3], "a");
     long start = argc > 4 ? atol(argv[4]) : 0;
+    int threads = getenv("VDRV_THREADS") ? atoi(getenv("VDRV_THREADS")) : 1;
     if (!in || !out) return 2;
     std::string line;
     long n = 0;
+    if (threads > 1) {
+        // independent writer instances used concurrently (each case has its own outputs)
+        std::vector<json> cases;
+        while (std::getline(in, line)) if (!line.empty()) cases.push_back(json::parse(line));
+        std::vector<json> results(cases.size());
+        std::vector<std::thread> th;
+        printf("BEGIN 0\n");
+        fflush(stdout);
+        for (int t = 0; t < threads; t++)
+            th.emplace_back([&, t] {
+                for (size_t i = static_cast<size_t>(t); i < cases.size(); i += static_cast<size_t>(threads)) {
+                    results[i] = run_writer_case(cases[i]);
+                    results[i]["case"] = i;
+                }
+            });
+        for (auto& t : th) t.join();
+        for (auto& r : results) { std::string s = r.dump(); fwrite(s.data(), 1, s.size(), out); fputc('\n', out); }
+        printf("DONE %zu\n", cases.size());
+        fclose(out);
+        return 0;
+    }
     while (std::getline(in, line)) {
         if (n++ < start || line.empty()) continue;
         printf("BEGIN %ld\n", n - 1);
         fflush(stdout);
         json c = json::parse(line);
-        std::string w = c.at("w").get<std::string>(), kind = c.at("kind").get<std::string>();
-        std::string base = c.at("out").get<std::string>();
-        std::string data;
-        slurp(c.at("data").get<std::string>(), data);
-        std::string suffix = kind == "fd" ? "" : (w == "gzip" ? ".gz" : w == "xz" ? ".xz" : "");
-        json outs = json::array(), log = json::array();
-        int k = 0;
-        auto path_k = [&](int i) { return base + "." + std::to_string(i); };
-        std::unique_ptr<BaseCborOutputWriter> wr;
-        try {
-            auto make = [&](int i) -> std::unique_ptr<BaseCborOutputWriter> {
-                if (kind == "fd") {
-                    int fd = ::open(path_k(i).c_str(), O_CREAT | O_WRONLY | O_TRUNC, 0644);
-                    if (w == "gzip") return std::unique_ptr<BaseCborOutputWriter>(new GzipCborOutputWriter(fd));
-                    if (w == "xz") return std::unique_ptr<BaseCborOutputWriter>(new XzCborOutputWriter(fd));
-                    return std::unique_ptr<BaseCborOutputWriter>(new CborOutputWriter(fd));
-                }
-                if (w == "gzip") return std::unique_ptr<BaseCborOutputWriter>(new GzipCborOutputWriter(path_k(i)));
-                if (w == "xz") return std::unique_ptr<BaseCborOutputWriter>(new XzCborOutputWriter(path_k(i)));
-                return std::unique_ptr<BaseCborOutputWriter>(new CborOutputWriter(path_k(i)));
-            };
-            wr = make(0);
-            outs.push_back(path_k(0) + suffix);
-            size_t pos = 0;
-            for (auto& s : c.at("steps")) {
-                if (s.contains("rot")) {
-                    k++;
-                    if (kind == "fd") { int fd = ::open(path_k(k).c_str(), O_CREAT | O_WRONLY | O_TRUNC, 0644); wr->rotate_output(boost::any(fd)); }
-                    else wr->rotate_output(boost::any(path_k(k)));
-                    outs.push_back(path_k(k) + suffix);
-                    log.push_back("rot");
-                }
-                else {
-                    size_t len = s.at("n").get<size_t>();
-                    if (pos + len > data.size()) len = data.size() - pos;
-                    wr->write(data.data() + pos, len);
-                    pos += len;
-                    log.push_back(len);
-                }
-            }
-            wr.reset();
-            log.push_back("closed");
-        }
-        catch (std::exception& x) {
-            log.push_back({{"exc", exc_name(x)}, {"what", x.what()}});
-            try { wr.reset(); } catch (...) {}
-        }
-        json r = json::object();
+        json r = run_writer_case(c);
         r["case"] = n - 1;
-        r["id"] = c["id"];
-        r["outs"] = outs;
-        r["log"] = log;
         std::string s = r.dump();
         fwrite(s.data(), 1, s.size(), out);
         fputc('\n', out);
